@@ -281,7 +281,10 @@ MutOutcome(e, dev) ==
                                ELSE "ok"
             [] OTHER -> "ok"
 
-Devs(e, n) == UNION {[S -> Shapes \ {"ok"}] : S \in {T \in SUBSET Paths(e) : Cardinality(T) <= n /\ Cardinality(T) >= 1}}
+(* (a deviation below a node that deviates itself is not a case: the node has been replaced) *)
+StrictPrefix(a, b) == Len(a) < Len(b) /\ SubSeq(b, 1, Len(a)) = a
+Devs(e, n) == UNION {[S -> Shapes \ {"ok"}] : S \in {T \in SUBSET Paths(e) : /\ Cardinality(T) <= n /\ Cardinality(T) >= 1
+                                                                             /\ \A a, b \in T : ~StrictPrefix(a, b)}}
 
 -----------------------------------------------------------------------------
 Cases ==
